@@ -22,3 +22,28 @@ for _n, _tiers in ((2, ('quick', 'thorough')), (3, ('quick', 'thorough'))):
       out='the eigen decomposition itself (Eigen::SelfAdjointEigenSolver); rounding of the sums of products; Goulard iteration around this step',
       assumptions=['real-arithmetic reading of sum_k max(l_k,0) v_ik v_jk'],
       stubs=['MatrixSquareSymmetric::computeEigen -> stores arbitrary eigenvalues / eigenvectors (no orthogonality, no ordering), returns 0'])
+
+
+# ---------------------------------------------------------------- C17.b (builder2: user constraints -> bounds / initial values of the optimiser)
+_CONSTUS = ['src/Enum/Enums.cpp', 'src/Model/Constraints.cpp', 'src/Model/ConsItem.cpp', 'src/Model/CovParamId.cpp', 'src/Model/Option_VarioFit.cpp',
+            'src/Basic/AStringable.cpp', 'src/Basic/Utilities.cpp']
+for _ni, _tiers in ((0, ('quick', 'thorough')), (1, ('quick', 'thorough')), (2, ('quick', 'thorough')), (3, ('thorough',))):
+    K('C17.b.%d' % _ni, property='C17', engine='symex', harness='C17/cons.cpp', entries=['k_fresh', 'k_defaults'], tus=_CONSTUS,
+      defines={'all': {'VF_NITEM': _ni, 'VF_NPAR': 2}}, tiers=_tiers,
+      bounds={'quick': 'constraint list of exactly %d item(s), each with igrf in [0,1], icov in [0,2], any of the 10 element types, iv1, iv2 in [0,2], any constraint type '
+                       '(LOWER, DEFAULT, UPPER, EQUAL), any integer value |v| <= 2^20; 2 parameters with any (imod in [0,1], icov in [0,2], element type, ivar, jvar in [0,2]); '
+                       'pre-state: (fresh) param/lower/upper undefined, (defaults) param any integer, lower/upper undefined or any integers with lower <= param <= upper' % _ni},
+      timeout_ms={'quick': 120000, 'thorough': 600000}, validate={'quick': 30, 'thorough': 60}, validate_doubles='int',
+      what='st_model_auto_constraints_apply, st_parid_decode, st_affect (model_auto.cpp, included as a translation unit), constraints_get, Constraints::addItem, ConsItem / CovParamId '
+           'constructors and clone: per parameter, the lower (upper) bound after the call is the value of a LOWER/EQUAL (UPPER/EQUAL) item concerning the parameter, intersected with a '
+           'built-in bound when one exists, and is unchanged when no item concerns it; an EQUAL item alone on its parameter gives lower == upper == value; the initial value is defined and '
+           'lies in [lower, upper] whenever lower <= upper; from a fresh state the initial value is that of a DEFAULT item when it respects the bounds',
+      out='the optimiser itself; which of several items on the same parameter and side wins (any of them is accepted); DEFAULT items when a built-in default already exists '
+          '(st_affect keeps the existing initial value); constraint values that are TEST; st_model_auto_pardef / st_model_auto_scldef; Goulard sill constraints (constantSills)',
+      assumptions=['CONGRUENCY keeps its initial value 50', 'real-arithmetic reading of (lower+upper)/2, upper/2, lower+1, upper-1 (exact on the integer inputs used)',
+                   'undefined is TEST = 1.234e30 (FFFF(x) is x > 1e30 in the NaN-free reading)'],
+      stubs=['EConsElem::fromValue -> item with _value = value for 0..9, default item (0) otherwise; key/description not modelled (static-constructor map not available)',
+             'EConsElem::fromKey (solver build only) -> EConsElem::UNKNOWN: the only key asked for is "UNKNOWN" (default argument of CovParamId() inside the ConsItem constructor); strlen -> byte loop',
+             'getDefaultSpaceType() -> ESpaceType::RN (the default space the library defines when none was set)',
+             'static enum items EConsElem::{UNKNOWN,RANGE,ANGLE,PARAM,SILL}, EConsType::{LOWER,DEFAULT,UPPER,EQUAL}, ESpaceType::{COMPOSITE,RN,SN}: _value written by hand in the solver build '
+             '(static constructors are not executed); the native build aborts if the library values differ'])
